@@ -75,7 +75,7 @@ func (f *frame) staticCall(in ssa.Instruction, callee *ssa.Function, args, binds
 	con := w.contractFor(callee)
 	inScope := w.inScope(callee)
 	if con != nil && !(con.Inline && inScope) {
-		f.applyContract(in, callee, con, args, pc, h, nm, resT, pos)
+		f.applyContract(in, callee, con, args, binds, pc, h, nm, resT, pos)
 		return true
 	}
 	if inScope && callee.Blocks != nil {
@@ -602,7 +602,7 @@ func calleeName(fn *ssa.Function) string {
 }
 
 // applyContract: assert pre, havoc frame, assume post.
-func (f *frame) applyContract(in ssa.Instruction, callee *ssa.Function, con *Contract, args []Val, pc string, h *Heap, nm string, resT types.Type, pos token.Pos) {
+func (f *frame) applyContract(in ssa.Instruction, callee *ssa.Function, con *Contract, args []Val, binds []Val, pc string, h *Heap, nm string, resT types.Type, pos token.Pos) {
 	e := f.e
 	con.used = true
 	if con.Trusted {
@@ -618,6 +618,17 @@ func (f *frame) applyContract(in ssa.Instruction, callee *ssa.Function, con *Con
 		if i < len(args) {
 			env.vars[p.Name()] = TV{args[i], p.Type()}
 		}
+	}
+	for i, fv := range callee.FreeVars {
+		if i < len(binds) {
+			env.vars[fv.Name()] = TV{binds[i], fv.Type()}
+			if _, isP := fv.Type().(*types.Pointer); isP {
+				env.cells[fv.Name()] = true
+			}
+		}
+	}
+	if env.pkg == nil && callee.Parent() != nil && callee.Parent().Pkg != nil {
+		env.pkg = callee.Parent().Pkg.Pkg
 	}
 	pre := h.clone()
 	env.old = pre
